@@ -51,9 +51,6 @@ func (cr *checkRun) makeReplay(a *Agg) (string, bool) {
 	return p, false
 }
 
-func (cr *checkRun) replayOnRealCode(a *Agg, inst *Oblig, base string) (string, bool) {
-	return "", false
-}
 
 func cmdReplay(id string, args []string) {
 	if len(args) < 1 {
@@ -64,6 +61,31 @@ func cmdReplay(id string, args []string) {
 	if err != nil {
 		fmt.Fprintln(os.Stderr, err)
 		os.Exit(2)
+	}
+	// a generated replay test: run it again on the real code of the current working tree
+	if strings.HasSuffix(args[0], "_replay_test.go") {
+		for _, ln := range strings.Split(string(data), "\n") {
+			if strings.HasPrefix(ln, "// govc-pkgdir: ") {
+				dir := strings.TrimSpace(strings.TrimPrefix(ln, "// govc-pkgdir: "))
+				out, lg, err := runReplayTest(dir, args[0])
+				fmt.Print(lg)
+				if err != nil {
+					fmt.Fprintln(os.Stderr, err)
+					os.Exit(2)
+				}
+				fmt.Println(string(out))
+				os.RemoveAll(scratchDir())
+				return
+			}
+		}
+	}
+	if strings.HasSuffix(args[0], ".replay.txt") {
+		fmt.Print(string(data))
+		tp := strings.TrimSuffix(args[0], ".replay.txt") + "_replay_test.go"
+		if _, err := os.Stat(tp); err == nil {
+			cmdReplay(id, []string{tp})
+		}
+		return
 	}
 	fmt.Print(string(data))
 }
